@@ -84,6 +84,9 @@ def run_inovesa(variant, opts, cwd, xdg, timeout=180, env=None, extra_args=(), c
     e = dict(core.SAN_ENV)
     e["XDG_DATA_HOME"] = xdg
     e["HOME"] = cwd
+    # every run gets its own glibc allocator fill byte (freshly malloc'd and freed memory is filled with it): a result that depends on
+    # uninitialised or freed heap memory then differs between runs that are compared bit for bit, and is garbage where an oracle looks at it
+    e["MALLOC_PERTURB_"] = str(1 + core.rng_u64("perturb", cwd, repr(sorted(opts.items()))) % 254)
     if env:
         e.update(env)
     r = core.run_cmd(argv, cwd=cwd, env=e, timeout=timeout)
